@@ -37,6 +37,9 @@ func ToMiningSubscribeResult(m *MiningResult) (*MiningSubscribeResult, error) {
 	if err != nil {
 		return nil, err
 	}
+	if err := validExtranonce(result[1], result[2]); err != nil {
+		return nil, err
+	}
 	return &MiningSubscribeResult{
 		ID:     m.ID,
 		Result: *result,
